@@ -45,7 +45,8 @@ Record view := mkView {
   v_applies : list (N * res N) }.         (* get(name) then apply_diffs: id of the answer *)
 
 Inductive case :=
-| CDir (strs : list str) (d : list (N * N)) (t : tables) (r : res view).
+| CDir (strs : list str) (d : list (N * N)) (wf : bool) (t : tables) (r : res view).
+  (* wf: what the harness' reference reader says about the hypothesis [well_formed] of the theorems *)
 
 Definition sget (strs : list str) (i : N) : str := nth (N.to_nat i) strs [].
 
@@ -64,8 +65,9 @@ Definition apply_ok (strs : list str) (t : tables) (g : graph N N) (q : N * res 
 
 Definition check (c : case) : bool :=
   match c with
-  | CDir strs d0 t r =>
+  | CDir strs d0 wf t r =>
       let d := map (fun f => (sget strs (fst f), snd f)) d0 in
+      Bool.eqb (well_formed d && nodup_strb (map fst d)) wf &&
       match resolve (load_root (tops t)) d, r with
       | Err, Err => true
       | Ok g, Ok v =>
